@@ -200,6 +200,14 @@ class Proj:
         for p in (self.work, self.deep, self.elsewhere, os.path.dirname(self.bin), self.cache, self.pay):
             os.makedirs(p, exist_ok=True)
         self.npay = 0
+        # symbolic links, so that the lexical shortening of a path (filepath.Clean) and what chdir(2) does differ:
+        #   <project>/link -> <side>/area/deep   (link/.. is <side>/area, not the project)
+        #   <parent>/lnk_<project> -> <project>
+        self.area = os.path.join(side, "area")
+        os.makedirs(os.path.join(self.area, "deep", "er"), exist_ok=True)
+        os.symlink(os.path.relpath(os.path.join(self.area, "deep"), self.d), os.path.join(self.d, "link"))
+        self.dlink = os.path.join(self.parent, "lnk_" + os.path.basename(self.d))
+        os.symlink(os.path.basename(self.d), self.dlink)
 
     def start(self, dv):
         """-d variant -> (directory mage is started in, -d string or None)"""
@@ -215,6 +223,22 @@ class Proj:
             return self.elsewhere, self.d
         if dv == "nested":
             return self.deep, "../.."
+        b = os.path.basename(self.d)
+        # spellings of one and the same directory
+        if dv == "reldot":
+            return self.parent, b + "/."
+        if dv == "relslashes":
+            return self.parent, ".//" + b + "//"
+        if dv == "relupdown":
+            return self.parent, b + "/../" + b
+        if dv == "workup":
+            return self.d, "work/.."
+        if dv == "symlink":          # a symbolic link to the project directory (no ".." behind it: see the notes)
+            return self.parent, os.path.basename(self.dlink)
+        if dv == "symlinkslash":
+            return self.parent, os.path.basename(self.dlink) + "/"
+        if dv == "absdot":
+            return self.elsewhere, self.d + "/./"
         raise ValueError(dv)
 
     def wstr(self, wv, cwd):
@@ -228,6 +252,18 @@ class Proj:
             return os.path.relpath(self.deep, cwd)
         if wv == "parent":
             return ".."
+        # spellings; through the symbolic link the lexical and the operating system's resolution differ
+        rel = os.path.relpath(self.d, cwd)
+        pre = "" if rel == "." else rel + "/"
+        tails = {"dotted": "work/.", "dslash": "nested//deep/", "updown": "work/../work", "dotslash": "./work",
+                 "link": "link", "linkslash": "link/", "linkup": "link/..", "linkupslash": "link/../", "linkupdeep": "link/../deep",
+                 "linkdown": "link/er", "sublinkup": "work/../link/../", "linkupup": "link/../..", "linkdot": "link/."}
+        if wv in tails:
+            return pre + tails[wv]
+        if wv == "abslinkup":
+            return self.d + "/link/.."
+        if wv == "abslinkupdeep":
+            return self.d + "/work/../link/../deep/er"
         raise ValueError(wv)
 
 
@@ -352,8 +388,10 @@ def gen_cfg(rng, klass, layout, gowrap, quick):
         elif r < 0.12:
             env[b"MAGEFILE_HELP"] = rng.choice([b"0", b"nope", b""])
     # directories
-    c["dv"] = rng.choice(["none", "none", "dot", "rel", "relslash", "abs", "nested"])
-    c["wv"] = rng.choice(["none", "none", "none", "rel", "abs", "nested", "parent"])
+    c["dv"] = rng.choice(["none", "none", "none", "dot", "rel", "relslash", "abs", "nested", "reldot", "relslashes", "relupdown", "workup", "symlink",
+                          "symlinkslash", "absdot"])
+    c["wv"] = rng.choice(["none"] * 6 + ["rel", "abs", "nested", "parent", "dotted", "dslash", "updown", "dotslash", "link", "linkslash", "linkup",
+                                        "linkupslash", "linkupdeep", "linkdown", "sublinkup", "linkupup", "linkdot", "abslinkup", "abslinkupdeep"])
     # extra variables
     for k, v in rng.sample(EXTRA_POOL, rng.choice([0, 1, 2, 3, 3, 5, 8])):
         env[k] = v
